@@ -144,7 +144,7 @@ theorem mapInsert_fresh (f : Forest) {A B ks : List HTree} {el nm : Nat} (k : Ma
   have hR : RootAt f1 (A ++ HTree.node el (.element nm) ks :: B) leaf [] := by
     refine ⟨by simp [f1, hroots], ?_⟩
     show (handlesList (f.roots ++ [leaf])).Nodup
-    rw [handlesList_append]
+    rw [handlesList_append_ff]
     refine List.nodup_append.2 ⟨hnd, by simp [handlesList, handles, leaf], ?_⟩
     intro a ha b hb
     simp only [handlesList, handles, leaf, List.append_nil, List.mem_singleton] at hb
@@ -154,7 +154,7 @@ theorem mapInsert_fresh (f : Forest) {A B ks : List HTree} {el nm : Nat} (k : Ma
       A ++ HTree.node el (.element nm) ks :: B := by simp
   have hget1 : f1.get? el = some (HTree.node el (.element nm) ks) := by
     have : el ∈ handlesList ((A ++ HTree.node el (.element nm) ks :: B) ++ []) := by
-      rw [hXY, handlesList_append]; simp [handlesList, handles]
+      rw [hXY, handlesList_append_ff]; simp [handlesList, handles]
     rw [hR.get?_rest this, hXY]; exact findList?_root hA
   have hip1 : f1.mapInsertionPoint k el = ks.getLast?.map HTree.handle := by
     unfold mapInsertionPoint; rw [hget1]
